@@ -9,7 +9,7 @@ import (
 )
 
 func (sim *Simulation) initStatCollection() {
-	cycleLimit := sim.cfg.Settings.CycleLimit
+	cycleLimit := sim.cfg.GetSettings().GetCycleLimit()
 	if cycleLimit <= 0 {
 		cycleLimit = 10
 	}
